@@ -83,7 +83,7 @@ func RunPool(e *Env, progs []*Program, opts PoolOpts) []*ProgResult {
 }
 
 func runBatch(e *Env, name string, progs []*Program, results []*ProgResult, idx map[string]int, opts PoolOpts, depth int) {
-	driver := func(p *Program) bool { return opts.Execute && results[idx[p.ID]].An.Accepted() }
+	driver := func(p *Program) bool { return opts.Execute && len(p.Injs) > 0 && results[idx[p.ID]].An.Accepted() }
 	b, err := e.NewBatch(name, progs, driver)
 	if err != nil {
 		for _, p := range progs {
@@ -567,6 +567,7 @@ type Report struct {
 }
 
 func NewReport(e *Env, prop, level, rule string) *Report {
+	os.RemoveAll(filepath.Join(e.Verif, "replays", prop))
 	return &Report{Prop: prop, E: e, Sigs: map[string]bool{}, Counters: map[string]int{}, Rule: rule, Level: level, MinDistinct: 2}
 }
 
